@@ -752,4 +752,194 @@ theorem spawn_after_erase (g : Graph) (s : State) (name : String) (p : Int) (F F
   · rw [a4, b4, l4]; exact m2
   · rw [a5, b5, l5]
 
+/-! ### History in flows the removal does not concern is kept -/
+
+/-- a row of the task whose flow set is not the one being rewritten keeps a row with that flow set -/
+theorem stSetFlows_keeps_flows (rows : List StRow) (name : String) (p : Int) (old new : List Nat) (r : StRow)
+    (hr : r ∈ rows) (hk : r.isOf name p) (hne : r.flows ≠ old) :
+    ∃ r' ∈ stSetFlows rows name p (some old) new, r'.isOf name p ∧ r'.flows = r.flows := by
+  unfold stSetFlows
+  simp only
+  generalize hh : (rows.filter fun r => r.name == name && r.pt == p && r.flows == old) = hits
+  have hhits : ∀ h ∈ hits, h.isOf name p ∧ h.flows = old := by
+    intro h hm
+    rw [← hh, List.mem_filter] at hm
+    have := hm.2
+    simp only [Bool.and_eq_true, beq_iff_eq] at this
+    exact ⟨⟨this.1.1, this.1.2⟩, this.2⟩
+  clear hh
+  suffices hinv : ∀ (hits acc : List StRow), (∀ h ∈ hits, h.isOf name p ∧ h.flows = old) →
+      (∃ r' ∈ acc, r'.isOf name p ∧ r'.flows = r.flows) →
+      ∃ r' ∈ hits.foldl (fun acc h =>
+          if !(acc.any fun r => r == h) then acc else
+          (acc.filter fun r => r == h || !(r.name == name && r.pt == p && r.flows == new)).map
+            fun r => if r == h then { r with flows := new } else r) acc, r'.isOf name p ∧ r'.flows = r.flows by
+    exact hinv hits rows hhits ⟨r, hr, hk, rfl⟩
+  intro hits
+  induction hits with
+  | nil => intro acc _ h; exact h
+  | cons h rest ih =>
+    intro acc hh hex
+    simp only [List.foldl_cons]
+    apply ih _ (fun q hq => hh q (List.mem_cons_of_mem _ hq))
+    obtain ⟨hkh, hfh⟩ := hh h List.mem_cons_self
+    by_cases hany : (acc.any fun r => r == h) = true
+    · simp only [hany, Bool.not_true, Bool.false_eq_true, if_false]
+      obtain ⟨r', hr', hk', hf'⟩ := hex
+      have hne' : (r' == h) = false := by
+        apply Bool.eq_false_iff.mpr
+        intro hc
+        have : r' = h := by simpa using hc
+        exact hne (by rw [← hf', this, hfh])
+      by_cases hnew : r'.flows = new
+      · -- `r'` may be replaced: the rewritten hit carries its flow set
+        obtain ⟨h0, hh0, heq0⟩ := List.any_eq_true.mp hany
+        have h0eq : h0 = h := by simpa using heq0
+        refine ⟨{ h with flows := new }, ?_, ⟨hkh.1, hkh.2⟩, by rw [← hf', hnew]⟩
+        rw [List.mem_map]
+        refine ⟨h, ?_, by simp⟩
+        rw [List.mem_filter]
+        exact ⟨by rw [← h0eq]; exact hh0, by simp⟩
+      · refine ⟨r', ?_, hk', hf'⟩
+        rw [List.mem_map]
+        refine ⟨r', ?_, by simp [hne']⟩
+        rw [List.mem_filter]
+        refine ⟨hr', ?_⟩
+        have : (r'.flows == new) = false := by
+          apply Bool.eq_false_iff.mpr
+          intro hc
+          exact hnew (by simpa using hc)
+        simp [this]
+    · have hany' : (acc.any fun r => r == h) = false := Bool.eq_false_iff.mpr hany
+      simp only [hany', Bool.not_false, if_true]
+      exact hex
+
+theorem stSome_fold_keeps (name : String) (p : Int) (F fl : List Nat) : ∀ (L : List (List Nat)) (rows : List StRow),
+    (∀ old ∈ L, old ≠ fl) → (∃ r ∈ rows, r.isOf name p ∧ r.flows = fl) →
+    ∃ r ∈ L.foldl (fun rows old => stSetFlows rows name p (some old) (diffF old F)) rows, r.isOf name p ∧ r.flows = fl
+  | [], _, _, h => h
+  | old :: rest, rows, hL, ⟨r, hr, hk, hf⟩ => by
+    simp only [List.foldl_cons]
+    apply stSome_fold_keeps name p F fl rest _ (fun o ho => hL o (List.mem_cons_of_mem _ ho))
+    obtain ⟨r', hr', hk', hf'⟩ := stSetFlows_keeps_flows rows name p old (diffF old F) r hr hk
+      (by rw [hf]; exact (hL old List.mem_cons_self).symm)
+    exact ⟨r', hr', hk', by rw [hf', hf]⟩
+
+/-- **`remove_task_from_flows` + commit keeps the history in the other flows**: a flow set of the task's
+`task_states` rows that contains none of the removed flows is still the flow set of one of its rows -/
+theorem erase_states_keeps (s : State) (name : String) (p : Int) (F : List Nat) (hq : Quiet s) (hF : F.isEmpty = false)
+    (r : StRow) (hr : r ∈ s.stRows) (hk : r.isOf name p) (hclean : hitB F r.flows = false) :
+    ∃ r' ∈ (dbFlush (removeTaskFromFlows s name p F).1).stRows, r'.isOf name p ∧ r'.flows = r.flows := by
+  obtain ⟨q1, q2, _, _⟩ := hq
+  have hF' : ¬ (F.isEmpty = true) := by rw [hF]; decide
+  rw [flush_st_of _ 5 (by rw [rtff_qStIns]; exact q1) (by
+    intro u hu
+    rw [rtff_qStUpd, q2, if_neg hF'] at hu
+    simp only [List.nil_append, List.mem_map] at hu
+    obtain ⟨f, _, hf⟩ := hu
+    rw [← hf]; rfl)]
+  rw [rtff_qStUpd, rtff_stRows, q2, if_neg hF']
+  simp only [List.nil_append, List.foldl_map, applyStUpd]
+  apply stSome_fold_keeps name p F r.flows _ s.stRows
+  · intro old ho hc
+    have := (List.mem_filter.mp ho).2
+    rw [hc, hclean] at this
+    exact absurd this (by decide)
+  · exact ⟨r, hr, hk, rfl⟩
+
+
+
+/-- a row of the task whose flow set is not the one being rewritten keeps a row with that flow set -/
+theorem outSetFlows_keeps_flows (rows : List OutRow) (name : String) (p : Int) (old new : List Nat) (r : OutRow)
+    (hr : r ∈ rows) (hk : r.isOf name p) (hne : r.flows ≠ old) :
+    ∃ r' ∈ outSetFlows rows name p (some old) new, r'.isOf name p ∧ r'.flows = r.flows := by
+  unfold outSetFlows
+  simp only
+  generalize hh : (rows.filter fun r => r.name == name && r.pt == p && r.flows == old) = hits
+  have hhits : ∀ h ∈ hits, h.isOf name p ∧ h.flows = old := by
+    intro h hm
+    rw [← hh, List.mem_filter] at hm
+    have := hm.2
+    simp only [Bool.and_eq_true, beq_iff_eq] at this
+    exact ⟨⟨this.1.1, this.1.2⟩, this.2⟩
+  clear hh
+  suffices hinv : ∀ (hits acc : List OutRow), (∀ h ∈ hits, h.isOf name p ∧ h.flows = old) →
+      (∃ r' ∈ acc, r'.isOf name p ∧ r'.flows = r.flows) →
+      ∃ r' ∈ hits.foldl (fun acc h =>
+          if !(acc.any fun r => r == h) then acc else
+          (acc.filter fun r => r == h || !(r.name == name && r.pt == p && r.flows == new)).map
+            fun r => if r == h then { r with flows := new } else r) acc, r'.isOf name p ∧ r'.flows = r.flows by
+    exact hinv hits rows hhits ⟨r, hr, hk, rfl⟩
+  intro hits
+  induction hits with
+  | nil => intro acc _ h; exact h
+  | cons h rest ih =>
+    intro acc hh hex
+    simp only [List.foldl_cons]
+    apply ih _ (fun q hq => hh q (List.mem_cons_of_mem _ hq))
+    obtain ⟨hkh, hfh⟩ := hh h List.mem_cons_self
+    by_cases hany : (acc.any fun r => r == h) = true
+    · simp only [hany, Bool.not_true, Bool.false_eq_true, if_false]
+      obtain ⟨r', hr', hk', hf'⟩ := hex
+      have hne' : (r' == h) = false := by
+        apply Bool.eq_false_iff.mpr
+        intro hc
+        have : r' = h := by simpa using hc
+        exact hne (by rw [← hf', this, hfh])
+      by_cases hnew : r'.flows = new
+      · -- `r'` may be replaced: the rewritten hit carries its flow set
+        obtain ⟨h0, hh0, heq0⟩ := List.any_eq_true.mp hany
+        have h0eq : h0 = h := by simpa using heq0
+        refine ⟨{ h with flows := new }, ?_, ⟨hkh.1, hkh.2⟩, by rw [← hf', hnew]⟩
+        rw [List.mem_map]
+        refine ⟨h, ?_, by simp⟩
+        rw [List.mem_filter]
+        exact ⟨by rw [← h0eq]; exact hh0, by simp⟩
+      · refine ⟨r', ?_, hk', hf'⟩
+        rw [List.mem_map]
+        refine ⟨r', ?_, by simp [hne']⟩
+        rw [List.mem_filter]
+        refine ⟨hr', ?_⟩
+        have : (r'.flows == new) = false := by
+          apply Bool.eq_false_iff.mpr
+          intro hc
+          exact hnew (by simpa using hc)
+        simp [this]
+    · have hany' : (acc.any fun r => r == h) = false := Bool.eq_false_iff.mpr hany
+      simp only [hany', Bool.not_false, if_true]
+      exact hex
+
+theorem outSome_fold_keeps (name : String) (p : Int) (F fl : List Nat) : ∀ (L : List (List Nat)) (rows : List OutRow),
+    (∀ old ∈ L, old ≠ fl) → (∃ r ∈ rows, r.isOf name p ∧ r.flows = fl) →
+    ∃ r ∈ L.foldl (fun rows old => outSetFlows rows name p (some old) (diffF old F)) rows, r.isOf name p ∧ r.flows = fl
+  | [], _, _, h => h
+  | old :: rest, rows, hL, ⟨r, hr, hk, hf⟩ => by
+    simp only [List.foldl_cons]
+    apply outSome_fold_keeps name p F fl rest _ (fun o ho => hL o (List.mem_cons_of_mem _ ho))
+    obtain ⟨r', hr', hk', hf'⟩ := outSetFlows_keeps_flows rows name p old (diffF old F) r hr hk
+      (by rw [hf]; exact (hL old List.mem_cons_self).symm)
+    exact ⟨r', hr', hk', by rw [hf', hf]⟩
+
+/-- **`remove_task_from_flows` + commit keeps the history in the other flows**: a flow set of the task's
+`task_outputs` rows that contains none of the removed flows is still the flow set of one of its rows -/
+theorem erase_outputs_keeps (s : State) (name : String) (p : Int) (F : List Nat) (hq : Quiet s) (hF : F.isEmpty = false)
+    (r : OutRow) (hr : r ∈ s.outRows) (hk : r.isOf name p) (hclean : hitB F r.flows = false) :
+    ∃ r' ∈ (dbFlush (removeTaskFromFlows s name p F).1).outRows, r'.isOf name p ∧ r'.flows = r.flows := by
+  obtain ⟨_, _, q1, q2⟩ := hq
+  have hF' : ¬ (F.isEmpty = true) := by rw [hF]; decide
+  rw [flush_out_of _ 2 (by rw [rtff_qOutIns]; exact q1) (by
+    intro u hu
+    rw [rtff_qOutUpd, q2, if_neg hF'] at hu
+    simp only [List.nil_append, List.mem_map] at hu
+    obtain ⟨f, _, hf⟩ := hu
+    rw [← hf]; rfl)]
+  rw [rtff_qOutUpd, rtff_outRows, q2, if_neg hF']
+  simp only [List.nil_append, List.foldl_map, applyOutUpd]
+  apply outSome_fold_keeps name p F r.flows _ s.outRows
+  · intro old ho hc
+    have := (List.mem_filter.mp ho).2
+    rw [hc, hclean] at this
+    exact absurd this (by decide)
+  · exact ⟨r, hr, hk, rfl⟩
+
 end CylcModel.Sched3Rm
